@@ -42,6 +42,14 @@ CHECKS = {
              "consumed-byte counter is updated on every exit. Does not decide byte-exact payload delivery.",
         note="trusts the reference table transcribed from ISO/IEC 18181-2; Brotli out of scope",
         ref="DESIGN.md section 3 C10"),
+    "C11": dict(
+        technique="error-type graph from ADT definitions vs recognised wrapping routes computed from MIR downcast chains; boundary-site census with edge-outcome path checks",
+        text="Decides the classification half for every prefix: every route by which a bitstream end-of-data error can be wrapped "
+             "(31 routes over 7 error enums) is recognised by the corresponding unexpected_eof method; every API boundary asks the "
+             "question and branches on it; the end-of-data edge never sets the sticky has_error flag and, in try_init, leads to "
+             "NeedMoreData before the buffer is drained. Does not decide correctness of partial images or equality of final results.",
+        note="intraprocedural path checks; the set of boundary functions is a reviewed table",
+        ref="DESIGN.md section 3 C11"),
     "C02": dict(
         technique="target-feature must-dataflow on MIR (runtime detection dominance, call-graph summaries) + unsafe-site census with per-class guard obligations + compile_fail witnesses",
         text="Decides for every function and every CPU: a #[target_feature] kernel is only entered where the features are enabled "
